@@ -61,7 +61,7 @@ func outOf(v *val.Val, err error, pan bool, msg string) histOut {
 		}
 		return histOut{c, ""}
 	}
-	return histOut{"value", v.Type.String() + " " + v.String() + " " + string(ValSx(v))}
+	return histOut{"value", string(TySx(v.Type)) + " " + v.String() + " " + string(ValSx(v))}
 }
 
 func runC13(r *Run) {
@@ -219,8 +219,8 @@ func runC13(r *Run) {
 				want := runOn(backends[be], csrc[ci], vars, sets[vi], true)
 				gs, ws := string(got.Sx()), string(want.Sx())
 				if got.cls == "value" && want.cls == "value" {
-					gs += " " + got.v.Type.String() + " " + got.v.String()
-					ws += " " + want.v.Type.String() + " " + want.v.String()
+					gs += " " + string(TySx(got.v.Type)) + " " + got.v.String() // structural type: Type.String() prints an address for a type that reuses a node
+					ws += " " + string(TySx(want.v.Type)) + " " + want.v.String()
 				}
 				if gs != ws {
 					k := "history:invoke-differs-from-fresh"
